@@ -19,6 +19,8 @@ import (
 
 // ---- crash exploration of one NFS history (engines E3+E2), shared by C01, C04, C05, C07, C12 ----
 
+const cntWtmax = 1 << 62
+
 type crashArg struct {
 	Prop       string     `json:"prop"` // property that owns the prefix/durability oracle (C01, C07 or C12)
 	DiskSize   uint64     `json:"disk"`
@@ -37,6 +39,8 @@ type crashArg struct {
 	Sched      int        `json:"sched,omitempty"`      // also explore every schedule of the history run with <= Sched deviations (daemons run early), points at disk writes
 	CheckVerf  bool       `json:"check_verf,omitempty"` // C07: verifier constant within an instance, different after recovery
 	ReadBack   bool       `json:"read_back,omitempty"`  // C07: data of every write is readable immediately
+	Tag        string     `json:"tag,omitempty"`        // prefix of every signature of this history (named histories)
+	ImplFail   bool       `json:"impl_fail,omitempty"`  // the history contains a request that the implementation alone refuses (too big for the journal): it then counts as not performed
 }
 
 type crashRes struct {
@@ -67,6 +71,9 @@ func crashJob(raw json.RawMessage) (interface{}, error) {
 		probe = fsx.DefaultProbe
 	}
 	viol := func(prop, sig, detail string) {
+		if a.Tag != "" {
+			sig = a.Tag + "|" + sig
+		}
 		out.Viols = append(out.Viols, &report.Violation{Property: prop, Sig: sig,
 			Detail: "history: " + fsx.Hist(a.Ops) + "\n" + detail,
 			Replay: map[string]interface{}{"job": "nfs.crash", "arg": a}})
@@ -91,6 +98,16 @@ func crashJob(raw json.RawMessage) (interface{}, error) {
 		for _, o := range a.Setup {
 			if _, _, mis := w.Do(o); mis != nil {
 				panic(fmt.Sprintf("set-up operation %s: %v", o, mis))
+			}
+		}
+		// a count of cntWtmax stands for the largest write the server under test announces
+		for i := range a.Ops {
+			if a.Ops[i].K == "WRITE" && a.Ops[i].Cnt == cntWtmax {
+				fi := fsx.Exec(w.Srv, fsx.Op{K: "FSINFO"}, fsx.RootFH(), nil)
+				if !fi.OK() || fi.Info["wtmax"] == 0 || fi.Info["wtmax"] > 64<<20 {
+					panic(fmt.Sprintf("FSINFO: no usable wtmax (%v)", fi.Info))
+				}
+				a.Ops[i].Cnt = fi.Info["wtmax"]
 			}
 		}
 		w.Flush()
@@ -119,6 +136,7 @@ func crashJob(raw json.RawMessage) (interface{}, error) {
 			w := &World{Disk: vdisk.New(img0), Vars: vars0.Clone(), Model: model0.Clone(), Unstable: !a.NoUnstable, Probe: probe}
 			w.Srv = mkNfs(w.Disk)
 			w.Srv.Unstable = w.Unstable
+			w.Model.AllowImplFail = a.ImplFail
 			d = w.Disk
 			w.Mark = true
 			models = append(models, w.Model.Clone())
